@@ -532,6 +532,8 @@ def check_frame(ctx, pool, cl, rule='R7'):
             fshort = f'Pool.run.<{fname}>' if in_run else f.short
             for attr, kind in hits:
                 n += 1
+                if kind == 'clear' and fname == 'run' and (any(node is getattr(x, 'value', None) for x in prologue) or f.name in run_helpers):
+                    kind = 'assign'        # emptying a container in the prologue of run is its re-initialisation
                 ok = kind in BOOKKEEPING[attr].get(fname, set())
                 ctx.check(rule, f'{fshort}: `{kind}` of self.{attr} is one of the known bookkeeping updates', ok, fshort, f'unexpected-bookkeeping-update:{attr}.{kind}@{fname}',
                           f'{fshort} mutates the Pool bookkeeping `self.{attr}` ({kind}) outside the update sites the conservation argument covers: inputs can be lost, duplicated or '
